@@ -208,6 +208,9 @@ func (i *interpreter) choose(k int, why string) int {
 	}
 	n := len(i.taken)
 	var c int64
+	if os.Getenv("GOSX_DEBUG_CHOOSE") != "" {
+		fmt.Fprintf(os.Stderr, "choose %s k=%d at %v\n", why, k, i.stack())
+	}
 	if n < len(i.prefix) {
 		c = i.prefix[n]
 	} else {
@@ -298,10 +301,16 @@ func (i *interpreter) mapOrderApplies() bool {
 	if len(i.mapOrderFns) == 0 {
 		return true
 	}
-	for k := len(i.curFn) - 1; k >= 0; k-- {
-		if i.mapOrderFns[i.curFn[k].Name()] {
+	// only maps ranged over directly by one of the named functions (or a closure of it)
+	if len(i.curFn) == 0 {
+		return false
+	}
+	fn := i.curFn[len(i.curFn)-1]
+	for fn != nil {
+		if i.mapOrderFns[fn.Name()] {
 			return true
 		}
+		fn = fn.Parent()
 	}
 	return false
 }
